@@ -100,6 +100,10 @@ def gen_case(rng, params, idx):
     # one named condition given two unrelated bounds, one after the other: two types, each with its own bound
     lvl1 += [["D", "int", "truthy", "shared"], ["D", rng.choice(["str", "object", rng.choice(names)]), "truthy", "shared"]]
     lvl1 += [["T", "int", "str"], ["T", rng.choice(names)], ["T", "int"], ["T"]]
+    # patterns of one parametrised @dependent_check function with typing.Any wildcards (docs/dependent.md, Wildcards):
+    # nested, crossing (general in complementary places, equal and unequal numbers of wildcards), disjoint
+    w = rng.choice([1, 2])
+    lvl1 += [["W", w, "*"], ["W", "*", w], ["W", w, w], ["W", "*", "*"], ["W", w, "*", "*"], ["W", "*", 2, 1], ["W", 3 - w, "*"]]
     for a in rng.sample(plain, 3):
         lvl1 += [["G", "list", a], ["Ty", a]]
     lvl1 += [["G", "dict", "str", rng.choice(plain)], ["G", "Sequence", "int"], ["G", "list", "int"], ["Ty", "object"],
@@ -157,7 +161,7 @@ def _hook(t, other, objs, env, norm=None):
     if h == "X":
         base = env.cls(t[1])
         return Order.LESS if oo is base else real(base, oo)
-    if h in ("D", "L", "T"):
+    if h in ("D", "L", "T", "W"):
         def bound_obj(x):
             b = T.bound_of(x, env)
             if b is None:
@@ -167,7 +171,14 @@ def _hook(t, other, objs, env, norm=None):
         bound = bound_obj(t)
         if bound is None:
             return None
-        if not isinstance(other, str) and other[0] in ("D", "L", "T"):
+        if not isinstance(other, str) and other[0] in ("D", "L", "T", "W"):
+            if h == "W" and other[0] == "W":
+                # FuncDependentType.__lt__ as pinned: the other side has wildcards where this one is specific, never the reverse
+                if len(t) != len(other):
+                    return Order.NONE
+                g1 = any(a == "*" and b != "*" for a, b in zip(t[1:], other[1:]))
+                g2 = any(b == "*" and a != "*" for a, b in zip(t[1:], other[1:]))
+                return Order.LESS if (g2 and not g1) else Order.MORE if (g1 and not g2) else Order.NONE
             if h == "T" and other[0] == "T":
                 if len(t) != len(other):
                     return Order.NONE
